@@ -563,3 +563,44 @@ func verifHarness_C03_dial_timeout_vs_fast_connect() {
 	g.Stop()
 	verifAssert(false, "witness")
 }
+
+// a dial whose connect completes at once (unix socket) and whose peer closes
+// right away: the close notification never comes before the dial callback has
+// reported the connection.
+func verifHarness_C03_immediate_connect_then_peer_close() {
+	verifBound("preemptions", 2)
+	vkReset()
+	MaxOpenFiles = 32
+	mode := verifChoose("mode", 3)
+	g := NewEngine(verifEngineConf(mode))
+	seq := 0
+	openAt, closeAt := 0, 0
+	g.OnClose(func(c *Conn, err error) { seq++; closeAt = seq })
+	verifSched(true, 2)
+	if err := g.Start(); err != nil {
+		verifFail("engine-start-failed", "")
+		return
+	}
+	vk.connectImmediately = true
+	vk.onConnect = func(f *vkFd) { verifGo(func() { f.peerClose() }) }
+	ok := 0
+	err := g.DialAsyncTimeout("unix", "/verif.sock", 0, func(c *Conn, err error) {
+		seq++
+		openAt = seq
+		if err == nil {
+			ok++
+		}
+	})
+	if err != nil {
+		verifFail("dial-starts", "")
+		return
+	}
+	verifJoin()
+	verifAssertD(openAt > 0, "dial-outcome-reported-exactly-once", "immediate-connect")
+	if closeAt > 0 && ok == 1 {
+		verifReach("closed-after-connect")
+		verifAssertD(openAt < closeAt, "no-close-before-open", "dialed/immediate-connect")
+	}
+	g.Stop()
+	verifAssert(false, "witness")
+}
